@@ -75,6 +75,11 @@ pub fn run(tier: &str) -> Result<Report, String> {
             tm.extend(crate::formulas::pattern_condition_family(&ctx.user));
         }
         tm.extend(crate::formulas::op_nest_family(ctx.nprops()));
+        // two groups with the same tokens but different inner grouping in one formula
+        if ["con2", "asy2", "cyc3"].contains(&b.name.as_str()) || !quick {
+            let (p0, p1) = (ctx.user.props[0].clone(), ctx.user.props[ctx.user.props.len() - 1].clone());
+            tm.extend(crate::formulas::reparenthesised_texts([&p0, &p1, &p0]).iter().map(|t| crate::formulas::f(t, &ctx.user)));
+        }
         let n_tmpl = tm.len();
         fs.extend(tm);
         parts.push(json!({"part": "core", "network": b.name, "max_nodes": m, "alphabet": alpha.describe(), "formulae": n_size, "template_formulae": n_tmpl}));
